@@ -25,6 +25,7 @@ import time
 import vlib
 
 LEVEL = "fault_enumeration"
+CLAIMED = True   # set by the lead after review; only claimed checks enter MANIFEST.json
 
 MANIFEST = dict(
     category="fault_enumeration",
